@@ -82,6 +82,12 @@ pub fn gen_sem_case(t: &mut Tape, o: SemOpts) -> SemCase {
             p.data_params = true;
         }
     }
+    if o.late_facts && o.data_params {
+        // degree checks only: locals declared without initialiser, arrays filled element by element
+        // (reads stay restricted to definitely assigned variables; value claims about such locals are F13)
+        p.uninit_decl = true;
+        p.elementwise_first = true;
+    }
     if o.late_facts {
         p.self_update_bias = 110;
         p.call_bias = 40;
